@@ -8,6 +8,9 @@
    to it, and both to the Go code, by the correspondence run (see notes/C08.md). *)
 From Coq Require Import List Bool NArith.
 From ELA Require Import model.C07_Merkle model.C08_PMT proof.C08_PMT.
+(* the correspondence checker is required (not imported) only so that building this
+   file also rebuilds it when the model changes; no theorem below uses it *)
+From ELA Require corr.C08_corr.
 Import ListNotations.
 
 Section C08.
@@ -41,6 +44,18 @@ Section C08.
     Forall (fun m => In m txs) ms \/ collision hash H2.
   Proof. exact (parse_sound hash hash_eq_dec H2 h0). Qed.
 
+  (* Sound for any claimed transaction count (the header does not commit to
+     it): if a message with count n', any flags and any hashes verifies against
+     the merkle root of a duplicate-free block, every id it yields is an id of
+     the block or an interior-node hash H2 a b, or an anomaly is exhibited
+     (collision, or a transaction id of the block that is itself H2 a b). *)
+  Theorem C08_parse_sound_any_count : forall (txs : list hash) n' r flags hs ms,
+    NoDup txs -> merkle_root hash H2 txs = Some r ->
+    parse_top hash hash_eq_dec H2 n' r flags hs = Some ms ->
+    Forall (fun m => In m txs \/ exists a b, m = H2 a b) ms
+    \/ collision hash H2 \/ leaf_is_node hash H2 txs.
+  Proof. exact (parse_sound_any_count hash hash_eq_dec H2 h0). Qed.
+
   (* The single-transaction merkle branch recomputes the block's merkle root. *)
   Theorem C08_branch_eval : forall (txs : list hash) i r, i < length txs ->
     merkle_root hash H2 txs = Some r ->
@@ -52,6 +67,7 @@ End C08.
 Print Assumptions C08_pmt_root_is_block_root.
 Print Assumptions C08_parse_build.
 Print Assumptions C08_parse_sound.
+Print Assumptions C08_parse_sound_any_count.
 Print Assumptions C08_branch_eval.
 
 (* Non-vacuity: a 5-transaction block, pattern {1, 4}: the built message
